@@ -188,6 +188,10 @@ c06_g3!(c06_q_g_degenerate2_both, c06_q_g_degenerate2_fill, c06_q_g_degenerate2_
     [(Circle::new(A1, 0), 2, Outside), (Circle::new(A0, 0), 3, Center)]);
 c06_g3!(c06_q_g_degenerate3_both, c06_q_g_degenerate3_fill, c06_q_g_degenerate3_stroke, false, 40,
     [(Ellipse::new(A0, Size::new(0, 3)), 2, Center), (Ellipse::new(A1, Size::new(4, 0)), 1, Outside)]);
+// tall narrow ellipses (h >= 2w) with a stroke: on the steep sides the leftmost pixels of a row are NOT
+// always stroke pixels
+c06_g3!(c06_q_g_ellipses_tall_both, c06_q_g_ellipses_tall_fill, c06_q_g_ellipses_tall_stroke, false, 40,
+    [(Ellipse::new(A0, Size::new(2, 7)), 1, Outside), (Ellipse::new(A1, Size::new(4, 9)), 1, Center), (Ellipse::new(A0, Size::new(3, 12)), 1, Inside)]);
 // flat corner radii: the first row of a corner is already shorter than the rectangle
 c06_g3!(c06_q_g_rrects_flat_both, c06_q_g_rrects_flat_fill, c06_q_g_rrects_flat_stroke, false, 52,
     [(RoundedRectangle::with_equal_corners(Rectangle::new(A0, Size::new(12, 4)), Size::new(5, 1)), 1, Inside),
